@@ -352,171 +352,10 @@ def leaf_consumers(ctx, rule="SIB-leaf-decision"):
         ctx.bad(rule, "core.Vmap.filter", "maps choices on axis 0, selection shared", f"found {short(s.ret, ev)}", func_loc(ctx, dotted))
 
 
-def fn_filter_partition(ctx, rule="PATH-filter-partition"):
-    kind, node, mod, owner = ctx.p.get_function(CORE + "Fn.filter")
-    ctx.fn(CORE + "Fn.filter")
-    construct = "core.Fn.filter"
-    loops = [n for n in ast.walk(node) if isinstance(n, ast.For)]
-    ctx.need(len(loops) == 1, f"{construct}: expected one loop over x.items(), found {len(loops)}")
-    loop = loops[0]
-    ctx.need(ast.unparse(loop.iter) in ("x.items()",), f"{construct}: loop does not iterate x.items()")
-    dicts = {"selected", "unselected"}
-    flags = {"found_selected": "selected", "found_unselected": "unselected"}
-    has_flags = any(isinstance(n, ast.Name) and n.id in flags for n in ast.walk(node))
-    failed = False
-
-    def blocks(stmts):
-        yield stmts
-        for st in stmts:
-            for fld in ("body", "orelse", "finalbody"):
-                sub = getattr(st, fld, None)
-                if isinstance(sub, list) and sub and isinstance(sub[0], ast.stmt):
-                    yield from blocks(sub)
-
-    nblocks = 0
-    for blk in blocks(loop.body):
-        stored, flagged = [], []
-        for st in blk:
-            if isinstance(st, ast.Assign) and len(st.targets) == 1:
-                t = st.targets[0]
-                if isinstance(t, ast.Subscript) and isinstance(t.value, ast.Name) and t.value.id in dicts:
-                    stored.append((t.value.id, st))
-                    if ast.unparse(t.slice) != ast.unparse(loop.target.elts[0]):
-                        ctx.bad(rule, construct, "stored under its own address", f"{ast.unparse(t)} is not keyed by the loop address", ctx.loc(mod, st))
-                        failed = True
-                if isinstance(t, ast.Name) and t.id in flags and isinstance(st.value, ast.Constant) and st.value.value is True:
-                    flagged.append((flags[t.id], st))
-        if not stored and not flagged:
-            continue
-        nblocks += 1
-        if has_flags and sorted(s for s, _ in stored) != sorted(f for f, _ in flagged):
-            st = (stored or flagged)[0][1]
-            ctx.bad(rule, construct, f"block stores {sorted(s for s, _ in stored)} but flags {sorted(f for f, _ in flagged)}",
-                    f"a store into {sorted(s for s, _ in stored)} is paired with the found-flag of {sorted(f for f, _ in flagged)}: the part "
-                    "written is then reported as absent (None) or an empty part as present", ctx.loc(mod, st))
-            failed = True
-    ctx.need(nblocks >= 3, f"{construct}: only {nblocks} storing blocks found (floor 3)")
-    # every (addr, value) reaches a store or the recursive split on every path of the loop body
-    def covers(stmts):
-        """True if every path through stmts stores the item somewhere (or splits it recursively)."""
-        for st in stmts:
-            if isinstance(st, ast.Assign):
-                t = st.targets[0]
-                if isinstance(t, ast.Subscript) and isinstance(t.value, ast.Name) and t.value.id in dicts and st.value is not None \
-                        and ast.unparse(st.value) == ast.unparse(loop.target.elts[1]):
-                    return True
-                if isinstance(st.value, ast.Call) and ast.unparse(st.value.func) == "self.filter":
-                    return True  # recursive split: sub-parts are stored when non-None
-            if isinstance(st, ast.If):
-                if covers(st.body) and covers(st.orelse):
-                    return True
-        return False
-    # the recursive split's two results are stored in the matching parts
-    for st in ast.walk(loop):
-        if isinstance(st, ast.Assign) and isinstance(st.value, ast.Call) and ast.unparse(st.value.func) == "self.filter" \
-                and isinstance(st.targets[0], ast.Tuple) and len(st.targets[0].elts) == 2:
-            a, b = (ast.unparse(e) for e in st.targets[0].elts)
-            stores = {ast.unparse(x.targets[0].value): ast.unparse(x.value) for x in ast.walk(loop)
-                      if isinstance(x, ast.Assign) and isinstance(x.targets[0], ast.Subscript) and isinstance(x.value, ast.Name)
-                      and ast.unparse(x.value) in (a, b)}
-            if stores.get("selected") != a or stores.get("unselected") != b:
-                ctx.bad(rule, construct, "recursive split stored in both parts",
-                        f"self.filter(...) returns ({a}, {b}) but the stores are {stores}: a sub-map's {'unselected' if stores.get('unselected') != b else 'selected'} "
-                        "remainder is lost or misplaced", ctx.loc(mod, st))
-                failed = True
-    if not covers(loop.body):
-        ctx.bad(rule, construct, "every item reaches exactly one part", "some path through the loop body stores the item in neither part", ctx.loc(mod, loop))
-        failed = True
-    # return: part is None iff nothing was stored
-    ret = [n for n in ast.walk(node) if isinstance(n, ast.Return) and n.value is not None and isinstance(n.value, ast.Tuple) and len(n.value.elts) == 2]
-    good = False
-    for r in ret:
-        a, b = ast.unparse(r.value.elts[0]), ast.unparse(r.value.elts[1])
-        if a in ("selected if found_selected else None", "selected or None", "selected if selected else None") and \
-                b in ("unselected if found_unselected else None", "unselected or None", "unselected if unselected else None"):
-            good = True
-    if not good:
-        ctx.bad(rule, construct, "return (selected-or-None, unselected-or-None)", "final return does not pair each part with its own emptiness flag", ctx.loc(mod, node))
-        failed = True
-    if not failed:
-        ctx.ok(rule, construct, f"{nblocks} storing blocks paired with their flags; all paths store the item")
 
 
-def fn_filter_leaf_agreement(ctx, rule="SIB-leaf-decision"):
-    """Fn.filter must (a) descend into sub-maps whatever the parent-level flag says (the remainder of a
-    non-matching complement still selects leaves) and (b) decide a leaf by the remainder's match(())[0]."""
-    kind, node, mod, owner = ctx.p.get_function(CORE + "Fn.filter")
-    construct = "core.Fn.filter"
-    loop = [n for n in ast.walk(node) if isinstance(n, ast.For)][0]
-    top_if = [st for st in loop.body if isinstance(st, ast.If)]
-    ctx.need(top_if, f"{construct}: no branch on the match flag found")
-    st = top_if[-1]
-    flag = ast.unparse(st.test)
-    pruned = False
-    if flag == "is_selected" and st.orelse:
-        src = " ".join(ast.unparse(x) for x in st.orelse)
-        if "self.filter" not in src and "unselected[addr] = value" in src:
-            pruned = True
-    if pruned:
-        ctx.bad(rule, construct, "prunes on the parent-level flag",
-                "when match(addr)[0] is False the whole value goes to `unselected` without descending, although the remainder "
-                "(e.g. of ~sel(('a','b')) at 'a') still selects leaves that regenerate resamples", ctx.loc(mod, st))
-    else:
-        ctx.ok(rule, construct + " (descent)")
-    leaf_by_flag = False
-    if flag == "is_selected":
-        for sub in st.body:
-            if isinstance(sub, ast.If) and sub.orelse:
-                src = " ".join(ast.unparse(x) for x in sub.orelse)
-                if "selected[addr] = value" in src and "match(())" not in ast.unparse(st) and "() in" not in ast.unparse(st):
-                    leaf_by_flag = True
-    if leaf_by_flag:
-        ctx.bad(rule, construct, "leaf decided by the parent-level flag",
-                "a non-dict value is put in `selected` because match(addr)[0] is True, not because the remainder selects the leaf "
-                "(sel(('x','y')) with leaf 'x': filter selects it, regenerate does not resample it)", ctx.loc(mod, st))
-    else:
-        ctx.ok(rule, construct + " (leaf)")
 
 
-def fn_merge_precedence(ctx, rule="ROLE-merge-precedence"):
-    """Fn.merge without check: x_ wins on conflict, x is discarded; one-sided keys are copied."""
-    kind, node, mod, owner = ctx.p.get_function(CORE + "Fn.merge")
-    ctx.fn(CORE + "Fn.merge")
-    construct = "core.Fn.merge"
-    src_stmts = {ast.unparse(st): st for st in ast.walk(node) if isinstance(st, ast.Assign)}
-    prov = {}
-    for k, st in src_stmts.items():
-        if isinstance(st.targets[0], ast.Name):
-            prov[st.targets[0].id] = ast.unparse(st.value)
-
-    def side(expr):
-        v = prov.get(expr, expr)
-        return "x_" if v.startswith("x_[") else "x" if v.startswith("x[") else v
-
-    res = [st for st in ast.walk(node) if isinstance(st, ast.Assign) and ast.unparse(st.targets[0]) == "result[key]"]
-    dis = [st for st in ast.walk(node) if isinstance(st, ast.Assign) and ast.unparse(st.targets[0]) == "discarded[key]"]
-    ctx.need(len(res) >= 4, f"{construct}: result[key] stores: {len(res)} (floor 4)")
-    plain = [side(ast.unparse(st.value)) for st in res if isinstance(st.value, (ast.Name, ast.Subscript))]
-    failed = False
-    # conflict store (value is a Name val_x_/val_x)
-    conflict = [st for st in res if isinstance(st.value, ast.Name) and ast.unparse(st.value) in prov and side(ast.unparse(st.value)) in ("x", "x_")]
-    if not conflict or any(side(ast.unparse(st.value)) != "x_" for st in conflict):
-        ctx.bad(rule, construct, "conflict: x_ takes precedence", f"conflict store takes {[side(ast.unparse(st.value)) for st in conflict]}", ctx.loc(mod, node))
-        failed = True
-    dvals = [side(ast.unparse(st.value)) for st in dis if isinstance(st.value, ast.Name) and ast.unparse(st.value) in prov]
-    if not dvals or any(v != "x" for v in dvals):
-        ctx.bad(rule, construct, "conflict: x's value is discarded", f"discarded takes {dvals}", ctx.loc(mod, node))
-        failed = True
-    one_sided = sorted(ast.unparse(st.value) for st in res if isinstance(st.value, ast.Subscript))
-    if one_sided != ["x[key]", "x_[key]"]:
-        ctx.bad(rule, construct, "one-sided keys copied", f"found {one_sided}", ctx.loc(mod, node))
-        failed = True
-    keys = [st for st in ast.walk(node) if isinstance(st, ast.Assign) and ast.unparse(st.targets[0]) == "all_keys"]
-    if not keys or "x.keys()" not in ast.unparse(keys[0].value) or "x_.keys()" not in ast.unparse(keys[0].value) or "|" not in ast.unparse(keys[0].value):
-        ctx.bad(rule, construct, "iterates the union of keys", "all_keys is not the union of both key sets", ctx.loc(mod, node))
-        failed = True
-    if not failed:
-        ctx.ok(rule, construct, "x_ wins conflicts, x discarded, one-sided keys copied, union of keys")
 
 
 def tables_(ctx):
